@@ -93,11 +93,14 @@ def run_one(m, repo, slot, pids=None):
         W = World(Facts(paths['ggrs']))
         shutil.rmtree(os.path.dirname(paths['ggrs']), ignore_errors=True)
         fired = []
+        known = {k['key'] for k in engine.known_findings().get('known', [])}
         props = pids or as_list(m.get('check', m.get('property')))
         for pid in props:
             mod, obs = engine.run_obligations(pid, W, 'quick', 'default')
             for ob in obs:
                 for v in ob.violations:
+                    if v['key'] in known:
+                        continue
                     fired.append(dict(ob=ob.id, key=v['key'], what=v['what'][:300], where=v.get('where')))
         res['fired'] = fired
         exp = res['expect']
@@ -155,11 +158,53 @@ def run(pid=None, repo='/repo', jobs=4, quiet=False, ids=None):
     return 0
 
 
+def implemented():
+    return sorted(f[:-3].upper() for f in os.listdir(os.path.join(VERIF, 'rules')) if len(f) == 6 and f[0] == 'c' and f[1:3].isdigit() and f.endswith('.py'))
+
+
+def run_seeds(jobs=6, ids=None):
+    """every seeded change against every implemented property check"""
+    ms = [m for m in load_mutants() if m['id'].startswith('seeded/')]
+    if ids:
+        ms = [m for m in ms if any(i in m['id'] for i in ids)]
+    props = implemented()
+    main_t = os.path.join(extract_mod.CACHE, 'target-default')
+    for s2 in range(jobs):
+        tdir = os.path.join(extract_mod.CACHE, 'target-mut-%d' % s2)
+        if not os.path.isdir(tdir) and os.path.isdir(main_t):
+            shutil.copytree(main_t, tdir, symlinks=True)
+    import queue
+    slots = queue.Queue()
+    for s2 in range(jobs):
+        slots.put(s2)
+
+    def work(m):
+        s2 = slots.get()
+        try:
+            return run_one(m, '/repo', s2, props)
+        except Exception as e:
+            return dict(id=m['id'], status='error', detail='%s: %s' % (type(e).__name__, e), expect=[])
+        finally:
+            slots.put(s2)
+    with ThreadPoolExecutor(max_workers=jobs) as ex:
+        results = list(ex.map(work, ms))
+    for r in results:
+        fired = sorted({f['ob'] for f in r.get('fired', [])})
+        print('SEED %-14s %-18s fired=%s %s' % (r['id'], r['status'], ','.join(fired), r.get('detail', '')[:150]))
+    with open(os.path.join(VERIF, 'evidence', 'killmatrix-seeds.json'), 'w') as f:
+        json.dump(dict(results=results), f, indent=1)
+    return results
+
+
 if __name__ == '__main__':
     import argparse
     ap = argparse.ArgumentParser()
     ap.add_argument('property', nargs='?')
     ap.add_argument('--ids', nargs='*')
     ap.add_argument('--jobs', type=int, default=4)
+    ap.add_argument('--seeds', action='store_true')
     a = ap.parse_args()
+    if a.seeds:
+        run_seeds(a.jobs, a.ids)
+        sys.exit(0)
     sys.exit(run(a.property, ids=a.ids, jobs=a.jobs))
